@@ -104,7 +104,9 @@ class Ctx:
             with self._lock:
                 self.violations.append((signature, description, None))
             return None
-        rdir = os.path.join(VERIF, "replays", self.pid, f"case-{case if case is not None else n}-{n}")
+        import re
+        cname = re.sub(r"[^A-Za-z0-9_.+=-]+", "_", str(case if case is not None else n))[:80]
+        rdir = os.path.join(VERIF, "replays", self.pid, f"case-{cname}-{n}")
         shutil.rmtree(rdir, ignore_errors=True)
         os.makedirs(rdir, exist_ok=True)
         meta = {"property": self.pid, "tier": self.tier, "seed": self.seed, "case": case,
